@@ -411,7 +411,7 @@ def project_specs(draw, pf: Profile):
             else:
                 t.effort, _k = _effort_whole(draw, res_min, eff, pf.max_slots, pf.day_efforts)
         if pf.priorities and draw(st.booleans()):
-            t.priority = draw(st.sampled_from([1, 100, 250, 499, 500, 501, 750, 900, 1000]))
+            t.priority = draw(st.sampled_from([1, 100, 250, 499, 500, 501, 750, 900, 1000, 0]))
         if pf.task_limits and not is_ms and draw(st.integers(0, 3)) == 0:
             qual = None
             if draw(st.integers(0, 2)) == 0:
@@ -577,7 +577,8 @@ def project_specs(draw, pf: Profile):
             return False
 
         for p, c in containers:
-            if draw(st.integers(0, 3)) == 0 and len(p) == 1 and not has_outside_successor(p):
+            # (any nesting level: a dated container may sit below an undated one; one dated level per branch)
+            if draw(st.integers(0, 3)) == 0 and not has_outside_successor(p) and not any(dict(nodes)[p[:k]].end is not None for k in range(1, len(p))):
                 c.end = _aligned_dt(draw, start + timedelta(days=span // 2), max(1, span // 2 - 1), res_min, daytime=True)
     elif pf.alap_task:
         for p, t in leaves_:
